@@ -103,6 +103,21 @@ func build(race bool, tmp string) string {
 	if race {
 		args = append(args, "-race")
 	}
+	// VERIF_REPO points the build at another checkout of the library (used to try
+	// seeded changes in a scratch worktree without touching /repo); the registered
+	// commands never set it.
+	if alt := os.Getenv("VERIF_REPO"); alt != "" {
+		gm, err := os.ReadFile(filepath.Join(harness, "go.mod"))
+		if err != nil {
+			fatal2("cannot read go.mod: %s", err)
+		}
+		altMod := filepath.Join(tmp, "go.alt.mod")
+		_ = os.WriteFile(altMod, []byte(strings.Replace(string(gm), "=> /repo", "=> "+alt, 1)), 0o644)
+		if gs, err := os.ReadFile(filepath.Join(harness, "go.sum")); err == nil {
+			_ = os.WriteFile(filepath.Join(tmp, "go.alt.sum"), gs, 0o644)
+		}
+		args = append(args, "-modfile="+altMod)
+	}
 	args = append(args, "./props")
 	cmd := exec.Command("go", args...)
 	cmd.Dir = harness
